@@ -294,6 +294,9 @@ use std::borrow::Cow;
 
 pub const MINLEN: usize = 3;
 pub const MAXLEN: usize = 10;
+pub const MIN: i32 = -100;
+pub const MAX: i32 = 100;
+pub const N: i32 = 3;
 pub const fn len_lim() -> usize { 7 }
 pub fn san_string(s: String) -> String { s.replace('x', "y") }
 pub fn pred_str(s: &str) -> bool { s.len() != 4 }
@@ -564,6 +567,16 @@ def build(tier='quick', seed=0):
                     if not fvs:
                         full.append(decl(fam, inner, sanitizers=[S('trim')] if fam == 'string' else [], derives=ds + ['From'], tags=['derive-pair']))
 
+    # ---------------- user constants whose names a template could also introduce (MIN, MAX, N) ------------
+    cap = [('MAX - 10', 90), ('MIN + 20', -80), ('MAX', 100), ('MIN', -100), ('N', 3), ('N * 2', 6)]
+    for (text, value) in cap:
+        for kind in LOWERS + UPPERS:
+            full.append(decl('int', 'i32', validators=[V(kind, text, value, 'expr')],
+                             derives=['Debug', 'Clone', 'Copy', 'PartialEq', 'TryFrom', 'FromStr', 'Display', 'Arbitrary', 'Serialize', 'Deserialize'],
+                             tags=['name-capture']))
+    full.append(decl('int', 'i32', validators=[V('greater_or_equal', 'MIN + 20', -80, 'expr'), V('less_or_equal', 'MAX - 10', 90, 'expr')],
+                     derives=['Debug', 'TryFrom', 'Arbitrary', 'Default'], default={'text': 'N', 'value': 3}, tags=['name-capture']))
+
     # ---------------- integers: all ordered validator subsets (C07) -----------------
     for t in (int_types if thorough else ['i32', 'u8']):
         kinds = ['greater', 'greater_or_equal', 'less', 'less_or_equal', 'predicate']
@@ -653,6 +666,10 @@ def build(tier='quick', seed=0):
             [V('greater_or_equal', '3.0', 3.0, 'lit')],
             [V('less_or_equal', '3.0', 3.0, 'lit')],
         ]
+        for bk, bt, bv in (('greater_or_equal', '0.0', 0.0), ('greater', '1.5', 1.5), ('less_or_equal', '0.0', 0.0), ('less', '-1.5', -1.5),
+                           ('greater_or_equal', '1e30', 1e30), ('less', '100', 100.0)):
+            arb_cases.append([V(bk, bt, bv, 'lit'), V('finite')])
+            arb_cases.append([V('finite'), V(bk, bt, bv, 'lit')])
         for vs in arb_cases:
             full.append(decl('float', t, validators=vs, derives=['Debug', 'Arbitrary'], tags=['arb']))
         full.append(decl('float', t, derives=['Debug', 'Arbitrary'], tags=['arb']))
